@@ -167,7 +167,8 @@ def run(ctx):
         prev_cdt = False
         for j in range(ndoc):
             d = rng.choice(lrrp_ids)
-            mode = "none" if d.value[1] else ("inherited" if prev_cdt and rng.random() < 0.4 else "inline")
+            # constants table of a document whose id has one: inline, inline but empty (length octet 00), or inherited (01)
+            mode = "none" if d.value[1] else ("inherited" if prev_cdt and rng.random() < 0.4 else ("empty" if rng.random() < 0.25 else "inline"))
             try:
                 doc, exp = build_doc(d, mode)
                 b = MBXML.as_bytes(doc)
